@@ -234,6 +234,9 @@ def run_scenarios(ctx, scen):
     return ev, skipped
 
 
+REPLAY_EXACT = True      # replay() re-executes exactly the stored case
+
+
 def run(ctx):
     ctx.assumptions += ['TLC/SANY', 'JSON marshalling', 'the cryptography package (primitives)',
                         'flag enforcement is switched with the documented key._require_usage_flags attribute']
